@@ -86,11 +86,13 @@ BOUND = {'vmdk': 1536 * 1024}
 def run(ctx):
     quick = ctx.quick
     ctx.assumptions += ['memory = sum(context_info.values()), as the property says',
+                        'the per-region cap n <= len (and the end-region window) is additionally discharged for unbounded integers by Apalache (CaptureRegionInd)',
                         'streams up to a few MiB; chunkings: giant, 1 MiB, 64 KiB, 4 KiB, boundary cuts, random']
     # A. engine part: MemoryBound is an invariant of CaptureEngine (every stream x chunking)
     for fmt, n, alpha in (('chain', 7, [0, 1, 3, 4]), ('fixed', 5, [0, 1, 3])):
         res = engine_scaled.model_check(ctx, fmt, n, alpha)
         ctx.tlc(res, 'CaptureEngine %s: MemoryBound at every state' % fmt)
+    engine_scaled.apalache_stage(ctx)
     # B. caps: ASSUME CapsWithinBound is evaluated by TLC; hostile layouts exported
     res = tlc.run('MC_ImageRef', 'MC_ImageRef_hostile.cfg', workdir=ctx.work, workers=1)
     ctx.tlc(res, 'ImageRef: caps sum within the bound (ASSUME), hostile layout family')
